@@ -10,11 +10,14 @@ package main
 import (
 	"fmt"
 	"net/http"
+	"os"
+	"strconv"
 	"net/http/httptest"
 	"sort"
 	"strings"
 	"time"
 
+	sio "github.com/karagenc/socket.io-go"
 	eio "github.com/karagenc/socket.io-go/engine.io"
 	eioparser "github.com/karagenc/socket.io-go/engine.io/parser"
 	"github.com/karagenc/socket.io-go/engine.io/transport"
@@ -202,7 +205,162 @@ func scenario(f fault, nmsg int, bound int, quietSetup bool) *vx.Scenario {
 	return sc
 }
 
+// sioScenario: the same upgrade, but under a real Socket.IO server and a real Socket.IO client (Manager).
+// Numbered events with 0..2 binary attachments flow both ways while the transports are swapped; the
+// application on each side must see every event exactly once, with its own attachments. (At the
+// Engine.IO level every frame may well arrive exactly once and the application still be hurt: the frames
+// of a binary event must reach the Socket.IO parser as one run.)
+// timing of one sioScenario: all zero = everything happens at one virtual instant (pure schedule exploration).
+type sioTiming struct {
+	PollRespLat time.Duration // the answer to a long poll reaches the client this much after the server wrote it
+	PipeLat     time.Duration // latency of the new transport, per frame
+	EmitAt      time.Duration // the emitters start this long after the upgrade began
+	Gap         time.Duration // pause between two events of one emitter
+}
+
+// slowResponses delays the answers to GET requests (the in-flight poll of the mechanism list).
+type slowResponses struct {
+	in  http.RoundTripper
+	lat *time.Duration
+}
+
+func (l slowResponses) RoundTrip(r *http.Request) (*http.Response, error) {
+	res, err := l.in.RoundTrip(r)
+	if r.Method == "GET" && *l.lat > 0 {
+		vsched.Sleep(*l.lat)
+	}
+	return res, err
+}
+
+func sioScenario(name string, natt []int, tm sioTiming, bound int) *vx.Scenario {
+	sc := &vx.Scenario{Name: name, Bound: bound, Horizon: 2 * time.Minute}
+	sc.Body = func(e *vsched.Exec) func() vx.Result {
+		vsched.SetExploring(false)
+		scfg := &sio.ServerConfig{}
+		scfg.EIO.PingInterval = 10 * time.Minute
+		scfg.EIO.PingTimeout = 10 * time.Minute
+		scfg.EIO.UpgradeTimeout = 5 * time.Second
+		var respLat time.Duration
+		srv := sio.NewServer(scfg)
+		mcfg := &sio.ManagerConfig{NoReconnection: true}
+		mcfg.EIO.Transports = []string{"polling"}
+		mcfg.EIO.HTTPTransport = slowResponses{&vrig.Inproc{H: srv}, &respLat}
+		mgr := sio.NewManager("http://inproc/socket.io/", mcfg)
+		var v vsched.Var
+		var ssock sio.ServerSocket
+		var srvGot, cliGot, cliErrs []string
+		var discS, discC []string
+		rec := func(dst *[]string, tag string, bins ...sio.Binary) {
+			s := tag
+			for _, b := range bins {
+				s += fmt.Sprintf("+%s", string(b))
+			}
+			v.Do(func() { *dst = append(*dst, s) })
+		}
+		srv.Use(func(s sio.ServerSocket, h *sio.Handshake) any {
+			s.OnEvent("e0", func(tag string) { rec(&srvGot, tag) })
+			s.OnEvent("e1", func(tag string, a sio.Binary) { rec(&srvGot, tag, a) })
+			s.OnEvent("e2", func(tag string, a, b sio.Binary) { rec(&srvGot, tag, a, b) })
+			s.OnDisconnect(func(r sio.Reason) { v.Do(func() { discS = append(discS, string(r)) }) })
+			v.Do(func() { ssock = s })
+			return nil
+		})
+		srv.OnConnection(func(s sio.ServerSocket) {})
+		sock := mgr.Socket("/", nil)
+		connected := false
+		sock.OnConnect(func() { v.Do(func() { connected = true }) })
+		sock.OnDisconnect(func(r sio.Reason) { v.Do(func() { discC = append(discC, string(r)) }) })
+		mgr.OnError(func(err error) { v.Do(func() { cliErrs = append(cliErrs, err.Error()) }) })
+		sock.OnEvent("e0", func(tag string) { rec(&cliGot, tag) })
+		sock.OnEvent("e1", func(tag string, a sio.Binary) { rec(&cliGot, tag, a) })
+		sock.OnEvent("e2", func(tag string, a, b sio.Binary) { rec(&cliGot, tag, a, b) })
+		sock.Connect()
+		vsched.Await(func() bool { return connected && ssock != nil })
+		vrig.Settle(time.Second)
+		cs := mgr.VerifEIO()
+		es := sio.VerifEIOSocketOf(ssock)
+		eioSrv := srv.VerifEIOServer()
+		ccb, scb := transport.NewCallbacks(), transport.NewCallbacks()
+		d := vrig.NewDuplex(ccb, scb)
+		d.Latency = tm.PipeLat
+		respLat = tm.PollRespLat
+		d.OnClientHandshake = func() {
+			vsched.GoQuiet("server-maybeUpgrade", func() {
+				req, _ := http.NewRequest("GET", "http://inproc/socket.io/?EIO=4&transport=webtransport", nil)
+				eioSrv.VerifMaybeUpgrade(httptest.NewRecorder(), req, es, d.Server(), scb)
+			})
+		}
+		tryOK := false
+		vsched.SetExploring(true)
+		vsched.GoQuiet("client-upgrader", func() {
+			ok := eio.VerifTryUpgradeTo(cs, d.C, ccb)
+			v.Do(func() { tryOK = ok })
+		})
+		emit := func(em func(string, ...any), tag string, n int) {
+			args := []any{tag}
+			for a := 0; a < n; a++ {
+				args = append(args, sio.Binary(fmt.Sprintf("%s.att%d", tag, a)))
+			}
+			em(fmt.Sprintf("e%d", n), args...)
+		}
+		var wantSrv, wantCli []string
+		expect := func(tag string, n int) string {
+			s := tag
+			for a := 0; a < n; a++ {
+				s += fmt.Sprintf("+%s.att%d", tag, a)
+			}
+			return s
+		}
+		for i, n := range natt {
+			wantSrv = append(wantSrv, expect(fmt.Sprintf("c%d", i), n))
+			wantCli = append(wantCli, expect(fmt.Sprintf("s%d", i), n))
+		}
+		vsched.GoQuiet("client-emitter", func() {
+			vsched.Sleep(tm.EmitAt)
+			for i, n := range natt {
+				if i > 0 {
+					vsched.Sleep(tm.Gap)
+				}
+				emit(sock.Emit, fmt.Sprintf("c%d", i), n)
+			}
+		})
+		vsched.GoQuiet("server-emitter", func() {
+			vsched.Sleep(tm.EmitAt)
+			for i, n := range natt {
+				if i > 0 {
+					vsched.Sleep(tm.Gap)
+				}
+				emit(ssock.Emit, fmt.Sprintf("s%d", i), n)
+			}
+		})
+		return func() vx.Result {
+			var r vx.Result
+			cmp := func(who string, got, want []string) {
+				g, w := append([]string{}, got...), append([]string{}, want...)
+				sort.Strings(g)
+				sort.Strings(w)
+				if fmt.Sprint(g) != fmt.Sprint(w) {
+					r.Violate("upgrade under Socket.IO: event lost, duplicated or delivered with foreign attachments on its way to the "+who,
+						"%s handlers saw %v, emitted %v; disconnects: server %v client %v; client errors %v; upgrade ok=%v, transports %s/%s", who, got, want, discS, discC, cliErrs, tryOK, eio.VerifServerTransportName(es), cs.TransportName())
+				}
+			}
+			cmp("server", srvGot, wantSrv)
+			cmp("client", cliGot, wantCli)
+			if len(discS)+len(discC) > 0 {
+				r.Violate("upgrade under Socket.IO: connection closed by a fault-free upgrade", "disconnects: server %v client %v; client errors %v", discS, discC, cliErrs)
+			}
+			if !tryOK {
+				r.Violate("upgrade under Socket.IO: fault-free upgrade did not complete", "client errors %v", cliErrs)
+			}
+			r.Outcome = fmt.Sprintf("srv=%v cli=%v disc=%v/%v", srvGot, cliGot, discS, discC)
+			return r
+		}
+	}
+	return sc
+}
+
 func scenarios(tier string) []*vx.Scenario {
+	thoroughTier = tier == "thorough"
 	b, n := 2, 2
 	if tier == "thorough" {
 		b, n = 3, 3
@@ -216,6 +374,33 @@ func scenarios(tier string) []*vx.Scenario {
 		sc := scenario(f, n, bb, true)
 		sc.Shards = 6
 		s = append(s, sc)
+	}
+	for _, x := range []struct {
+		name string
+		natt []int
+	}{{"1-1", []int{1, 1}}, {"2-0-1", []int{2, 0, 1}}} {
+		sc := sioScenario("socket.io/attachments-"+x.name, x.natt, sioTiming{}, b)
+		sc.Shards = 8
+		s = append(s, sc)
+	}
+	// the same with real time in it: the new transport has latency L per frame, the answer to the
+	// in-flight poll takes 0..4.5 L, and the emitters start at every half L of the upgrade
+	L := 100 * time.Millisecond
+	for _, pl := range []time.Duration{0, L / 2, 3 * L / 2, 5 * L / 2, 7 * L / 2, 9 * L / 2} {
+		for k := 0; k <= 8; k++ {
+			for _, gap := range []time.Duration{0, L} {
+				tm := sioTiming{PollRespLat: pl, PipeLat: L, EmitAt: time.Duration(k) * L / 2, Gap: gap}
+				tb := timedBound()
+				if pl == 0 && gap == 0 {
+					tb++ // everything at one instant: the schedule decides, one more deviation
+				}
+				sc := sioScenario(fmt.Sprintf("socket.io/timed/poll-answer-latency=%v,emit-at=%v,gap=%v", pl, tm.EmitAt, gap), []int{1, 1}, tm, tb)
+				if tb > 1 {
+					sc.Shards = 4
+				}
+				s = append(s, sc)
+			}
+		}
 	}
 	if tier == "thorough" {
 		// the fault-free upgrade with one message each way exactly around the swap, one level deeper
@@ -246,3 +431,16 @@ func main() {
 		},
 	})
 }
+
+func timedBound() int {
+	if b := os.Getenv("C07_TB"); b != "" {
+		n, _ := strconv.Atoi(b)
+		return n
+	}
+	if thoroughTier {
+		return 2
+	}
+	return 1
+}
+
+var thoroughTier bool
